@@ -1031,7 +1031,17 @@ static int janet_channel_pop_with_lock(JanetChannel *channel, Janet *item, int i
         return 0;
     }
     janet_assert(!janet_chan_unpack(channel, item, 0), "bad channel packing");
-    if (!janet_q_pop(&channel->write_pending, &writer, sizeof(writer))) {
+    int is_empty;
+    if (is_threaded) {
+        /* don't dereference fiber from another thread */
+        is_empty = janet_q_pop(&channel->write_pending, &writer, sizeof(writer));
+    } else {
+        /* Skip writers that were canceled and are no longer waiting on this channel */
+        do {
+            is_empty = janet_q_pop(&channel->write_pending, &writer, sizeof(writer));
+        } while (!is_empty && (writer.sched_id != writer.fiber->sched_id));
+    }
+    if (!is_empty) {
         /* Pending writer */
         if (is_threaded) {
             JanetVM *vm = writer.thread;
@@ -1307,7 +1317,7 @@ JANET_CORE_FN(cfun_channel_close,
                 msg.argj = janet_wrap_nil();
                 janet_ev_post_event(vm, janet_thread_chan_cb, msg);
             } else {
-                if (janet_fiber_can_resume(writer.fiber)) {
+                if (janet_fiber_can_resume(writer.fiber) && writer.sched_id == writer.fiber->sched_id) {
                     if (writer.mode == JANET_CP_MODE_CHOICE_WRITE) {
                         janet_schedule(writer.fiber, make_close_result(channel));
                     } else {
@@ -1328,7 +1338,7 @@ JANET_CORE_FN(cfun_channel_close,
                 msg.argj = janet_wrap_nil();
                 janet_ev_post_event(vm, janet_thread_chan_cb, msg);
             } else {
-                if (janet_fiber_can_resume(reader.fiber)) {
+                if (janet_fiber_can_resume(reader.fiber) && reader.sched_id == reader.fiber->sched_id) {
                     if (reader.mode == JANET_CP_MODE_CHOICE_READ) {
                         janet_schedule(reader.fiber, make_close_result(channel));
                     } else {
